@@ -71,6 +71,16 @@ def gen(tier, rng):
                     pre = ["b >= 0", "b < %d" % P.bits]
                     mk("bin%s/w" % op, P.name, par2, "return unwrap(%s %s %s);" % (wa, op, wb), ["return a %s b;" % op], pre=pre)
                     mk("bin%s/int" % op, P.name, [(R.name, "a"), ("int", "b")], "return unwrap(%s %s b);" % (wa, op), ["return a %s b;" % op], pre=pre)
+                # a built-in LEFT operand shifted by a wrapper: the built-in expression's (promoted) type and value
+                # (seeded change M-C12-5: the result narrowed back to the left operand's type)
+                for L_ in ([I8, U8, I16, U16, I32, U64] if tier != "quick" else [U8, I16, I32]):
+                    PL = promote(L_)
+                    for op in SHIFTS:
+                        mk("bin%s/lhs-builtin/%s" % (op, L_.short), PL.name, [(L_.name, "a"), (R.name, "b")], "return a %s %s;" % (op, wb), ["return a %s b;" % op],
+                           pre=["b >= 0", "b < %d" % PL.bits] + (["a >= 0"] if (PL.signed and op == "<<") else []))
+                    if cfg == "clang":
+                        facts.append(factmod.Fact("type/%s/%s/lhs-builtin-shift/%s" % (nest, R.short, L_.short),
+                                                  "std::is_same_v<decltype(std::declval<%s>() << std::declval<%s>()), %s>" % (L_.name, W, PL.name), 1))
                 for op in CMPS:
                     mk("cmp" + op, "bool", par2, "return %s %s %s;" % (wa, op, wb), ["return a %s b;" % op])
                     mk("cmp%s/rhs-builtin" % op, "bool", par2, "return %s %s b;" % (wa, op), ["return a %s b;" % op])
